@@ -365,6 +365,32 @@ def main():
             cov['squares_compared'] += tw['txs']
         cov['profiles'][name] = pc
 
+    # ---- guard of extraction + runner.ml: a sample of this property's squares is re-evaluated inside Coq
+    prof_dirs = [os.path.join(BUILD, 'runs', f'{tree_stamp()[:16]}-{seed}-{tier}', pr['name']) for pr in profiles
+                 if pr[tier] > 0 and not pr['name'].startswith('twin:')]
+    prof_dirs = [d for d in prof_dirs if os.path.isdir(d)]
+    if prof_dirs:
+        nsq = int(os.environ.get('VERIF_INCOQ', '12' if tier == 'quick' else '300'))
+        key = hashlib.sha1(('|'.join(prof_dirs) + f'|{nsq}').encode()).hexdigest()[:16]
+        cache = os.path.join(BUILD, 'incoq', f'{key}.json')
+        os.makedirs(os.path.dirname(cache), exist_ok=True)
+        lk = open(cache + '.lock', 'w')
+        fcntl.flock(lk, fcntl.LOCK_EX)
+        try:
+            if not os.path.exists(cache):
+                rr = sh(f'python3 {V}/scripts/incoq.py {" ".join(prof_dirs)} --n {nsq} --seed {seed}')
+                open(cache, 'w').write(rr.stdout.strip().splitlines()[-1] if rr.stdout.strip() else '{}')
+        finally:
+            fcntl.flock(lk, fcntl.LOCK_UN)
+        try:
+            ic = json.loads(open(cache).read())
+        except Exception:
+            ic = {}
+        ic_ok = bool(ic) and ic.get('coqc_rc') == 0 and ic.get('squares', 0) > 0 and ic.get('agree') == ic.get('squares')
+        obligations.append((f"extraction guard: {ic.get('squares', 0)} sampled squares re-evaluated inside Coq (vm_compute of Driver.check_step) agree with the extracted OCaml runner",
+                            ic_ok, '' if ic_ok else json.dumps(ic)[:600]))
+        cov['incoq'] = ic
+
     # ---- classification against known findings
     known = known_all
     unlisted_mon = list(monfail)
